@@ -301,6 +301,33 @@ def correspond(ctx):
     ctx.count("correspondence_lines", len(lines))
 
 
+def check_slab(c, lo, hi):
+    """slab(bounds) is the current unit-cell atom list repeated over every cell of the block, nothing else"""
+    u = c.unit_cell_atoms()
+    s = c.slab(bounds=(tuple(lo), tuple(hi)))
+    n = len(u["element"])
+    ncell = (hi[0] - lo[0] + 1) * (hi[1] - lo[1] + 1) * (hi[2] - lo[2] + 1)
+    if int(s["n_uc"]) != n or int(s["n_cells"]) != ncell or len(s["element"]) != n * ncell:
+        return f"slab({lo}..{hi}) reports {s['n_uc']} unit-cell atoms x {s['n_cells']} cells = {len(s['element'])} sites; the cell has {n} atoms, the block {ncell} cells"
+    cells = np.rint(np.asarray(s["cell"])).astype(int)
+    seen = set()
+    D = np.asarray(c.unit_cell.direct)
+    key = {(int(a), int(o)): k for k, (a, o) in enumerate(zip(u["asym_atom"], u["symop"]))}
+    for j in range(n * ncell):
+        k = key.get((int(s["asym_atom"][j]), int(s["symop"][j])))
+        if k is None:
+            return f"slab({lo}..{hi}): a site (parent {int(s['asym_atom'][j])}, operation {int(s['symop'][j])}) is not in the current unit-cell atom list"
+        cell = tuple(int(x) for x in cells[j])
+        if not all(lo[i] <= cell[i] <= hi[i] for i in range(3)) or (k, cell) in seen:
+            return f"slab({lo}..{hi}): cell {cell} outside the block or site repeated"
+        seen.add((k, cell))
+        if np.abs(np.asarray(s["frac_pos"][j]) - (np.asarray(u["frac_pos"][k]) + np.array(cell))).max() > 1e-12 or int(s["element"][j]) != int(u["element"][k]):
+            return f"slab({lo}..{hi}): site {j} is not unit-cell atom {k} moved by {cell}"
+        if np.abs(np.asarray(s["cart_pos"][j]) - np.asarray(s["frac_pos"][j]) @ D).max() > 1e-9:
+            return f"slab({lo}..{hi}): cart_pos of site {j} inconsistent with its frac_pos and the cell"
+    return None
+
+
 def judge(e, sites, seed):
     """the statement on the real code against the exact-rational orbit; returns description or None"""
     import random
@@ -333,10 +360,154 @@ def judge(e, sites, seed):
     want = len(e.symops) * sum(float(o) for _, o, _ in sites)
     if abs(tot - want) > 1e-9:
         return f"{tag}: total occupancy {tot} != |G| x sum(occ) = {want}"
+    if seed % 3 == 0:
+        try:
+            lo = [-rng.randint(0, 2) for _ in range(3)]
+            hi = [rng.randint(0, 2) for _ in range(3)]
+            m = check_slab(c, lo, hi)
+            if m:
+                return f"{tag}: {m}"
+            if e.number in (146, 148, 155, 160, 161, 166, 167):
+                # the same block asked again after the axes were switched: it is built from the unit-cell atoms of the crystal as it is now
+                c.choose_trigonal_lattice("R" if e.choice != "R" else "H")
+                m = check_slab(c, lo, hi)
+                if m:
+                    return f"{tag}, after choose_trigonal_lattice: {m}"
+        except Exception as ex:  # noqa
+            return f"{tag}: slab raised {type(ex).__name__}: {ex}"
+    return None
+
+
+def enc(op):
+    R, T = op
+    r = 0
+    for k in range(9):
+        r = r * 3 + (R[k] + 1)
+    t = 0
+    for k in range(3):
+        t = t * 12 + (T[k] % 12)
+    return t * 19683 + r
+
+
+def op_string(op):
+    """x,y,z spelling of an operation, written here (not by the code under test)"""
+    R, T = op
+    out = []
+    for i in range(3):
+        terms = "".join(("+" if R[3 * i + k] > 0 else "-") + "xyz"[k] for k in range(3) if R[3 * i + k])
+        if T[i] % 12:
+            f = F(T[i] % 12, 12)
+            terms += f"+{f.numerator}/{f.denominator}"
+        out.append(terms.lstrip("+"))
+    return ",".join(out)
+
+
+class _Setting:
+    def __init__(self, number, choice, symops):
+        self.number, self.choice, self.symops = number, choice, symops
+
+
+def judge_nonstandard(index, seed):
+    """a crystal whose space group is given by its operations in a NON-tabulated setting (origin moved by twelfths), as a CIF declares
+    it; afterwards an ordinary crystal of the tabulated setting with the same number: both are the orbit of their own operations"""
+    import random
+    from chmpy.crystal import Crystal
+    rng = random.Random(seed)
+    e = entries()[index]
+    s12 = tuple(rng.randint(0, 11) for _ in range(3))
+    conj = []
+    for c in ordered_codes(e.symops):
+        R, T = dec(c)
+        conj.append((R, tuple((T[i] + s12[i] - sum(R[3 * i + k] * s12[k] for k in range(3))) % 12 for i in range(3))))
+    codes = [enc(o) for o in conj]
+    sites = None
+    for _ in range(40):
+        cand = [(rng.choice([6, 7, 8, 16]), F(1), random_general(rng)) for _ in range(rng.choice([1, 2]))]
+        if separation_ok(codes, cand):
+            sites = cand
+            break
+    if sites is None:
+        return None
+    sg0 = make_sg(e)
+    if sg0 is None:
+        return None
+    uc = cell_for(sg0, rng)
+    from chmpy.core.element import Element
+    cif = {"atom_site_label": [f"{Element[z].symbol}{i + 1}" for i, (z, _, _) in enumerate(sites)],
+           "atom_site_type_symbol": [Element[z].symbol for z, _, _ in sites],
+           "atom_site_fract_x": [float(p[0]) for _, _, p in sites], "atom_site_fract_y": [float(p[1]) for _, _, p in sites],
+           "atom_site_fract_z": [float(p[2]) for _, _, p in sites],
+           "cell_length_a": uc.a, "cell_length_b": uc.b, "cell_length_c": uc.c,
+           "cell_angle_alpha": uc.alpha_deg, "cell_angle_beta": uc.beta_deg, "cell_angle_gamma": uc.gamma_deg,
+           "symmetry_equiv_pos_as_xyz": [op_string(o) for o in conj], "symmetry_Int_Tables_number": e.number,
+           "symmetry_space_group_name_H-M": "nonstandard"}
+    tag = f"{e.number}:{e.choice} with the origin moved by {s12}/12 (operations given explicitly, CIF style)"
+    import logging
+    logging.disable(logging.WARNING)
+    try:
+        c = Crystal.from_cif_data(cif)
+        got = sorted(int(o.integer_code) for o in c.space_group.symmetry_operations)
+        if got != sorted(codes):
+            return f"{tag}: the crystal's space group does not hold the declared operations"
+        rows = impl_rows(c)
+    except Exception as ex:  # noqa
+        return f"{tag}: raised {type(ex).__name__}: {ex}"
+    finally:
+        logging.disable(logging.NOTSET)
+    # the code keeps the operations in the order they were declared (identity first here)
+    order = [int(o.integer_code) for o in c.space_group.symmetry_operations]
+    ref = ref_unit_cell(order, sites)
+    m = rows_match(ref, rows)
+    if m:
+        return f"{tag}: {m}"
+    # ... and now the tabulated setting of that number
+    st = [(z, o, p) for z, o, p in sites]
+    if separation_ok(e.symops, st):
+        r = judge(e, st, seed)
+        if r:
+            return f"(after a crystal in a non-tabulated setting of No. {e.number} was expanded) " + r
     return None
 
 
 def search(ctx, budget):
+    # non-tabulated settings first (and a tabulated crystal of the same number right after each)
+    nent = len(entries())
+    for _ in range(24 if budget == "quick" else 400):
+        i = ctx.rng.randrange(nent)
+        seed = ctx.rng.randrange(1 << 30)
+        e = entries()[i]
+        ctx.case({"setting": f"{e.number}:{e.choice}", "nonstandard": True, "seed": seed}, nontrivial=len(e.symops) > 1)
+        try:
+            r = judge_nonstandard(i, seed)
+        except Exception as ex:  # noqa
+            r = f"{e.number}:{e.choice} non-tabulated setting: raised {type(ex).__name__}: {ex}"
+        if r:
+            ctx.fail(f"C01:nonstandard:{e.number}:{e.choice}", r, {"index": i, "seed": seed, "nonstandard": True})
+    # hexagonal axes, in-plane coordinates on the sixths (thorough: twelfths) grid, complete: images whose coordinate is mathematically
+    # 0 come out of the float arithmetic as +-1e-17 and must still be wrapped into [0,1) and merged with their coincident copies
+    for i, e in enumerate(entries()):
+        if not 143 <= e.number <= 194:
+            continue
+        sg_ = make_sg(e)
+        if sg_ is None or (sg_.crystal_system == "trigonal" and e.choice == "R"):
+            continue
+        rcentred = len(e.symops) % 3 == 0 and e.number in (146, 148, 155, 160, 161, 166, 167)
+        if budget == "quick" and not rcentred:
+            continue
+        den = 6 if budget == "quick" else 12
+        zc = F(ctx.rng.randint(1, 96), 97)
+        for a in range(den):
+            for b in range(den):
+                sites = [(ctx.rng.choice([6, 8, 14]), F(1), (F(a, den), F(b, den), zc if (a + b) % 2 else F(1, 3)))]
+                if not separation_ok(e.symops, sites):
+                    continue
+                seed = ctx.rng.randrange(1 << 30)
+                ctx.case({"setting": f"{e.number}:{e.choice}", "sites": [[z, str(o), [str(x) for x in p]] for z, o, p in sites]}, nontrivial=True)
+                r = judge(e, sites, seed)
+                if r:
+                    ctx.fail(f"C01:{e.number}:{e.choice}", r, {"index": i, "sites": [[z, str(o), [str(x) for x in p]] for z, o, p in sites], "seed": seed})
+        if len(ctx.failures) >= 20:
+            break
     items = plan(ctx, 1 if budget == "quick" else 20)
     nsp = 0
     for i, e, sites, k in items:
@@ -355,6 +526,8 @@ def search(ctx, budget):
 
 def replay(ctx, obj):
     i = obj["input"]
+    if i.get("nonstandard"):
+        return judge_nonstandard(i["index"], i["seed"])
     e = entries()[i["index"]]
     sites = [(z, F(o), tuple(F(x) for x in p)) for z, o, p in i["sites"]]
     return judge(e, sites, i["seed"])
